@@ -155,6 +155,19 @@ func (n *ParallelNode) Run(ctx context.Context) error {
 		case workerJobs <- job:
 			// we submitted the job to a worker, give it to the coordinator as well
 			coordinatorJobs <- job
+		case workerErr := <-errs:
+			// A job failed while we were waiting for a free worker. The
+			// coordinator reports every failed job on errs and blocks once
+			// the channel is full; errs is otherwise only read between two
+			// messages (in trigger). Not reading it here left the node, the
+			// coordinator and the workers (which wait for the coordinator to
+			// collect their jobs) waiting for each other forever, with the
+			// pipeline stuck in the running state. Nack the message we are
+			// holding and stop, exactly as if trigger had returned the error.
+			if nackErr := msg.Nack(workerErr, n.ID()); nackErr != nil {
+				return nackErr
+			}
+			return workerErr
 		case <-workersDone:
 			// no worker is running anymore, they must have all failed, nack the
 			// message and stop running
